@@ -658,6 +658,18 @@ func c19EntryExpect(st *c19State, e c19Auth, class, oracle string) c19Expect {
 			}
 		}
 		if !found {
+			// a password that BEGINS with a NUL byte is inside the property's quantifier (only a trailing NUL is excluded):
+			// the decoder strips leading NULs as well (finding F35, a class of its own so that nothing else hides behind it)
+			for _, p := range st.b64[e.Auth] {
+				u, pw := p[0], p[1]
+				if u != "" && !strings.Contains(u, ":") && strings.HasPrefix(pw, "\x00") && !strings.HasSuffix(pw, "\x00") {
+					user, pass, found = u, pw, true
+					class, oracle = "c19-auth-leading-nul", "auth_roundtrip"
+					break
+				}
+			}
+		}
+		if !found {
 			return c19Expect{class: class, oracle: oracle, partial: []string{tok(e.IdentityToken), tok(e.RegistryToken)}}
 		}
 	}
